@@ -11,6 +11,7 @@ pub mod c08;
 pub mod c09;
 pub mod c10;
 pub mod c11;
+pub mod c13;
 pub mod c15;
 
 pub fn property(id: &str) -> Option<PropertyDef> {
@@ -26,6 +27,7 @@ pub fn property(id: &str) -> Option<PropertyDef> {
         "C09" => Some(c09::def()),
         "C10" => Some(c10::def()),
         "C11" => Some(c11::def()),
+        "C13" => Some(c13::def()),
         "C15" => Some(c15::def()),
         _ => None,
     }
